@@ -346,7 +346,8 @@ LookupTmpl(g, name, k) ==
 WxsScopes(file) == [i \in 1..Len(file.wxs) |->
     [n |-> file.wxs[i].n, v |-> VO(file.wxs[i].members),
      lp |-> IF "src" \in DOMAIN file.wxs[i]
-            THEN [ok |-> TRUE, root |-> "script", abs |-> file.wxs[i].src, keys |-> <<>>]
+            THEN [ok |-> TRUE, root |-> "script", keys |-> <<>>,     \* `src` is the spelling, `key` (if given) the path it resolves to
+                  abs |-> IF "key" \in DOMAIN file.wxs[i] THEN file.wxs[i].key ELSE file.wxs[i].src]
             ELSE [ok |-> TRUE, root |-> "inline", path |-> file.path, mod |-> file.wxs[i].n, keys |-> <<>>]]]
 
 (* `env.sm` ("slot mode"): the nodes being rendered are slot content of a dynamic-slot component,
